@@ -199,11 +199,13 @@ class Run:
         if res.get('sample') is not None and len(self.samples) < self.max_samples:
             self.samples.append(res['sample'])
 
-    def map(self, func, cases, workers: int | None = None, chunksize: int = 1, timeout_s: float = 3000.0):
+    def map(self, func, cases, workers: int | None = None, chunksize: int = 1, timeout_s: float | None = None):
         """Run ``func(case)`` for every case in forked worker processes; absorb and yield results."""
         cases = list(cases)
         if not cases:
             return []
+        if timeout_s is None:  # generous wall-clock watchdog around the whole pool (its firing is inconclusive, never a verdict)
+            timeout_s = 3000.0 if self.quick else 6 * 3600.0
         workers = min(workers or NCPU, len(cases))
         results = []
         if workers <= 1 or os.environ.get('VERIF_SERIAL'):
